@@ -215,6 +215,75 @@ def run_case(case, R):
     vtime.run(main)
 
 
+def run_removed(case, R):
+    """A pairing whose removal could not be confirmed by the accessory (link down) is gone on the controller's side all the same; a pairing for the
+    same accessory id created afterwards has negotiated no broadcast key and must not accept what is sealed under the removed pairing's key."""
+    import aiohomekit.controller.ble.pairing as ble_pairing_mod
+    from aiohomekit.controller import Controller
+    from aiohomekit.controller.abstract import TransportType
+    from aiohomekit.exceptions import AccessoryDisconnectedError
+    g0 = case["g0"]
+    R.nt()
+    R.cls("removed-pairing-key", "removal:" + case["removal"])
+
+    class _Zc:
+        zeroconf = None
+
+    async def main(loop):
+        cache = CharacteristicCacheMemory()
+        cache.async_create_or_update_map("AA:BB:CC:DD:EE:FF", 1, DB, KEY.hex(), g0)
+        ctl = Controller(async_zeroconf_instance=_Zc(), char_cache=cache)
+        ble = BleController(char_cache=cache)
+        ctl.transports[TransportType.BLE] = ble
+        ctl.load_pairing("alias", dict(PD))
+
+        async def no_link(*a, **kw):
+            raise AccessoryDisconnectedError("simulated: accessory not in range")
+        orig, ble_pairing_mod.establish_connection = ble_pairing_mod.establish_connection, no_link
+        try:
+            dev = BLEDevice(ADDRESS, "Sim", None)
+
+            def feed(mfr):
+                adv = AdvertisementData(local_name="Sim", manufacturer_data={76: mfr}, service_data={}, service_uuids=[], tx_power=None, rssi=-60, platform_data=())
+                ble._device_detected(dev, adv)
+            feed(regular_adv(g0))
+            await vtime.settle(loop)
+            if case["removal"] == "fails":
+                try:
+                    await asyncio.wait_for(ctl.remove_pairing("alias"), 600)
+                    R.cls("removal-returned")
+                except Exception as e:  # noqa: BLE001
+                    R.cls("removal-raised:" + type(e).__name__)
+            else:
+                # the application drops the pairing without talking to the accessory (factory reset on the other side)
+                p_old = ctl.aliases.pop("alias")
+                ble.aliases.pop("alias", None)
+                ctl.pairings.pop(p_old.id, None)
+                ble.pairings.pop(p_old.id, None)
+                await p_old.shutdown()
+                cache.async_delete_map(p_old.id)
+            # the accessory is paired again: new long-term keys, no broadcast key negotiated yet
+            pd2 = dict(PD, AccessoryLTPK="33" * 32, iOSPairingId="ios-2", iOSDeviceLTSK="44" * 32, iOSDeviceLTPK="55" * 32)
+            p2 = ctl.load_pairing("again", pd2)
+            calls = []
+            p2.dispatcher_connect(lambda ev: calls.append(dict(ev)))
+            feed(regular_adv(g0))
+            await vtime.settle(loop)
+            before = p2.description.state_num if p2.description else None
+            for k_, g in enumerate((g0 + 1, g0 + 2, g0 + 7)):
+                value, v8 = value_bytes(11, 3 + k_)
+                feed(notification(KEY, DEVICE_ID, g, g, 11, v8))
+                await vtime.settle(loop)
+            after = p2.description.state_num if p2.description else None
+            if calls or after != before:
+                R.fail("C18.forged-or-stale-accepted", f"a pairing created after the removal ({case['removal']}) of an earlier one accepted notifications sealed under the removed "
+                                                       f"pairing's broadcast key: listeners {calls}, state_num {before} -> {after}", kind="removed-pairing-key")
+            await p2.shutdown()
+        finally:
+            ble_pairing_mod.establish_connection = orig
+    vtime.run(main)
+
+
 KINDS = ["next", "next", "next", "skip", "beyond", "replay-current", "older", "wrong-key", "wrong-aad", "other-device", "inner-mismatch", "flip", "truncated", "regular"]
 
 
@@ -254,6 +323,8 @@ SPEC = Property(
           "accepted notification together with a replayed, older or forged one."),
     layers=[
         Layer("fixed-shapes", run_case, enumerate=enum_fixed, exhaustive=True, space="5 start numbers x 7 formats x a 16-event history; all 128 single-bit flips of one notification for 3 (quick) / 28 (thorough) (start, format) pairs; 22 truncations", min_nontrivial=30),
+        Layer("removed-pairing-key", run_removed, enumerate=lambda tier: ({"g0": g, "removal": r} for g in (1, 100, 65000) for r in ("fails", "local")), exhaustive=True,
+              space="3 state numbers x {removal whose request to the accessory fails, local removal}; then a new pairing for the same accessory id and notifications under the old key"),
         Layer("generated", run_case, strategy=histories, n={"quick": 320, "thorough": 12000}, min_nontrivial=100),
     ],
     assumptions=["a flipped message authenticates by chance with probability 100 * 2^-32; the oracle evaluates authenticity instead of assuming rejection",
